@@ -328,10 +328,14 @@ def check(ctx):
                 any((x.get('callee') or {}).get('n') == 'engine::Position::parse_uci' for x in walk(n))]
     pushes = [n for n, cfid, cn in gf_.calls() if short(cn) in ('push_back', 'emplace_back') and
               any((x.get('callee') or {}).get('n') == 'engine::Position::parse_uci' for x in walk(n))]
-    ctx.ob('C09.R6.go-words', 'searchmoves', len(sm) == 1 and sm[0].startswith('loop') and bool(fills_sm or pushes),
-           '`go searchmoves m1 .. mk` walks the rest of the line and stores parse_uci of every word in limits.searchmoves '
-           '(one turn of the token loop does %s)' % sm, site=gf_.loc())
-    inf = gw.get('infinite') or []
+    from rules.ucitab import relevant, searchmoves_loop
+    sm = relevant(sm)
+    _f, _loop, stops = searchmoves_loop(p)
+    ctx.ob('C09.R6.go-words', 'searchmoves', len(sm) == 1 and sm[0].startswith('loop') and bool(fills_sm or pushes) and not stops,
+           '`go searchmoves m1 .. mk` walks the words that follow and stores parse_uci of every move word in limits.searchmoves '
+           '(one turn of the token loop does %s)%s' % (sm, '' if not stops else ' — the loop stops at the move word(s) %s, so the moves '
+                                                       'from there on are not in the list' % stops), site=gf_.loc(_loop))
+    inf = relevant(gw.get('infinite') or [])
     ctx.ob('C09.R6.go-words', 'infinite', len(inf) == 1 and re.fullmatch(r'\(\w+\.infinite=1\)', inf[0]) is not None,
            '`go infinite` sets limits.infinite and nothing else (%s)' % inf, site=gf_.loc())
     ctx.note('not decided: wall-clock adherence to movetime/clock limits (limits are polled every 4096/40960 node visits)')
